@@ -178,7 +178,7 @@ def segmentations(rng, n, bounds):
     return out
 
 
-def make_case(rng, role, msgs, bits="-", pre=0, ho=b"", nseg=None, enc=0, segs_override=None, eof=0):
+def make_case(rng, role, msgs, bits="-", pre=0, ho=b"", nseg=None, enc=0, segs_override=None, eof=0, xr="-"):
     stream = b"".join(m.raw for m in msgs)
     bounds, p = [], 0
     for m in msgs:
@@ -215,8 +215,8 @@ def make_case(rng, role, msgs, bits="-", pre=0, ho=b"", nseg=None, enc=0, segs_o
         segs = segs_override(len(stream))
     if role == "meta":
         enc = 0     # MSE towards a metadata download is not driven (the negotiation is C06's subject)
-    return "role=%s np=%d bits=%s pre=%d cu=1 xv=%s ho=%s enc=%d eof=%d stream=%s segs=%s" % (
-        role, 1 if role == "meta" else NP, bits, pre, xv, ho.hex() or "-", enc, eof, stream.hex() or "-", "/".join(segs))
+    return "role=%s np=%d bits=%s pre=%d cu=1 xv=%s xr=%s ho=%s enc=%d eof=%d stream=%s segs=%s" % (
+        role, 1 if role == "meta" else NP, bits, pre, xv, xr, ho.hex() or "-", enc, eof, stream.hex() or "-", "/".join(segs))
 
 
 def two_cuts(step):
@@ -249,6 +249,40 @@ def hand_cases(rng, tier="quick"):
         ms = [M(msg(20, b"\x00d1:md11:ut_metadatai2ee1:pi6881ee"), "ext-hs", True), M(msg(4, be32(2)), "have"),
               M(msg(20, b"\x01" + bytes(range(90))), "ext-garbage", True), M(msg(2), "int")]
         out.append(make_case(rng, role, ms, enc=1, segs_override=two_cuts(1)))
+    # extension messages that need a reply while the previous reply is still pending (the write side is held):
+    # the second request waits, everything behind it waits; `w` = the write side becomes ready
+    hs = M(msg(20, b"\x00d1:md11:ut_metadatai2eee"), "ext-hs", True)
+    rq = lambda p: M(msg(20, b"\x02d8:msg_typei0e5:piecei%dee" % p), "ext-mdreq", True)
+    for role in ("leech", "leechdone", "seed", "iseed"):
+        for k, (body, xr) in enumerate([
+                ([hs, rq(0), M(msg(4, be32(1)), "have"), rq(0), M(msg(4, be32(2)), "have"), rq(7), M(msg(2), "int")], "0111"),
+                ([hs, rq(0), rq(1), rq(0), M(msg(4, be32(3)), "have")], "0111"),
+                ([hs, M(msg(2), "int"), rq(0), M(msg(20, b"\x01" + bytes(30)), "ext-garbage", True), rq(5), M(msg(4, be32(4)), "have"), M(be32(0), "ka")], "0101"),
+                ([rq(0), rq(0), M(msg(4, be32(5)), "have")], "00"),            # ut_metadata not advertised: no reply, no wait
+        ]):
+            raw = b"".join(m.raw for m in body)
+            n = len(raw)
+            bounds, p = [], 0
+            for m in body:
+                p += len(m.raw)
+                bounds.append(p)
+
+            def segsf(_n, bounds=bounds, n=n):
+                def lens(cuts):
+                    pts = [0] + sorted(set(c for c in cuts if 0 < c < n)) + [n]
+                    return [pts[i + 1] - pts[i] for i in range(len(pts) - 1)]
+                out = []
+                out.append("k0:%d,w" % n)                                            # everything, then one write
+                out.append("k0:" + ",".join(str(x) for x in lens(bounds)) + ",w")   # message by message, then one write
+                out.append("k0:" + ",".join("%d,w" % x for x in lens(bounds)))       # a write after every message
+                out.append("k0:" + ",".join(["1"] * n) + ",w")                      # byte-wise
+                out.append("k3:%d,w" % n)
+                mid = bounds[len(bounds) // 2]
+                out.append("k0:%d,w,%d,w" % (mid, n - mid))
+                out.append("k0:%d" % n)                                              # no write at all: stays waiting
+                return out
+            for enc in (0, 1):
+                out.append(make_case(rng, role, body, enc=enc, xr=xr, segs_override=segsf))
     # remote close in the middle of every kind of message / payload, every role
     for role in ROLES:
         whole = [M(msg(2), "int"), M(msg(4, be32(0)), "have"), M(msg(6, be32(0) + be32(0) + be32(1000)), "req"),
